@@ -1,4 +1,5 @@
 import NeverModel.Lemmas.VerWrite
+import NeverModel.Lemmas.VmFreeSound
 set_option linter.unusedSimpArgs false
 set_option linter.unusedVariables false
 /-! calls and returns: the frame records MARK pushes, as a ghost list beside the machine; the global invariant -/
@@ -42,7 +43,7 @@ structure Here (md : Module) (hm : HMap) (bot : Int) (vm : Vm) (recs : List Rec)
 
 /-- **the global invariant**: the stack array has its size; `fp` is the innermost live record; the live records are apart, intact and
 chained; and the machine is at its recorded height (`Here`) or at a handler entry with the pending records above `pp` -/
-def Sound (md : Module) (hm : HMap) (bot : Int) (vm : Vm) (recs : List Rec) : Prop :=
+def Sound0 (md : Module) (hm : HMap) (bot : Int) (vm : Vm) (recs : List Rec) : Prop :=
   StackOk vm ∧ vm.fp = topF bot recs ∧ Desc5 recs ∧ WF md hm bot vm recs ∧
   (Here md hm bot vm recs ∨ (AtHandler md hm vm ∧ SplitH bot vm.pp recs))
 
@@ -67,7 +68,7 @@ def AllocFresh (vm : Vm) : Prop := vm.gc.free = 0 ∨ (vm.gc.free < vm.gc.mem.si
    every history of well-typed heap operations);
 and, as a matter of where the considered run starts, a RET / RETHROW finds a live record (the run has not returned from the
 activation it started in). -/
-def StepOk (md : Module) (hm : HMap) (vm : Vm) (recs : List Rec) : Prop :=
+def StepOk0 (md : Module) (hm : HMap) (vm : Vm) (recs : List Rec) : Prop :=
   ∀ i, md.code[vm.ip]? = some i →
      (i.op = .CALL → CalleeArity md hm vm) ∧
      ((i.op = .RET ∨ i.op = .RETHROW) → recs ≠ []) ∧
@@ -521,7 +522,7 @@ theorem step_LABEL_handler (hf : flowOk md hm = true) (orc : Oracle) (vm vm' : V
 theorem sound_CLEAR (hf : flowOk md hm = true) (orc : Oracle) (vm vm' : Vm) (recs : List Rec) (i : Instr) (st : AbsSt)
     (hi : md.code[vm.ip]? = some i) (hs : hm[vm.ip]? = some (some st)) (hop : i.op = .CLEAR_STACK)
     (hso : StackOk vm) (hd : Desc5 recs) (hwf : WF md hm bot vm recs) (hsp : SplitH bot vm.pp recs)
-    (hstep : (step md orc).run vm = .ok ((), vm')) : Sound md hm bot vm' (ghostNext md vm recs) := by
+    (hstep : (step md orc).run vm = .ok ((), vm')) : Sound0 md hm bot vm' (ghostNext md vm recs) := by
   have hso' := (step_keeps_stackOk md orc vm vm' hso hstep).1
   obtain ⟨r1, r2, r3, _, r5, r6, r7⟩ := step_CLEAR_STACK_regs md orc vm vm' i hi hop hstep
   have hstk : vm'.stack = vm.stack := step_stack_of_exec orc vm vm' i hi hstep (fun s2 h2 => by
@@ -548,7 +549,7 @@ theorem sound_inside (hf : flowOk md hm = true) (orc : Oracle) (vm vm' : Vm) (re
     (hnot : i.op ≠ .CALL ∧ i.op ≠ .RET ∧ i.op ≠ .RETHROW ∧ i.op ≠ .HALT ∧ i.op ≠ .UNHANDLED_EXCEPTION)
     (hso : StackOk vm) (hfp : vm.fp = topF bot recs) (hd : Desc5 recs) (hwf : WF md hm bot vm recs) (hh : Here md hm bot vm recs)
     (hfresh : i.op = .INT → AllocFresh vm)
-    (hstep : (step md orc).run vm = .ok ((), vm')) : Sound md hm bot vm' (ghostNext md vm recs) ∨ vm'.running = 3 := by
+    (hstep : (step md orc).run vm = .ok ((), vm')) : Sound0 md hm bot vm' (ghostNext md vm recs) ∨ vm'.running = 3 := by
   obtain ⟨n1, n2, n3, n4, n5⟩ := hnot
   have hah := hh.height
   obtain ⟨hrun, st, hs, hinv⟩ := hah
@@ -704,7 +705,7 @@ theorem sound_CALL (hf : flowOk md hm = true) (orc : Oracle) (vm vm' : Vm) (recs
     (hi : md.code[vm.ip]? = some i) (hop : i.op = .CALL)
     (hso : StackOk vm) (hfp : vm.fp = topF bot recs) (hd : Desc5 recs) (hwf : WF md hm bot vm recs) (hh : Here md hm bot vm recs)
     (hcall : CallOk md vm)
-    (hstep : (step md orc).run vm = .ok ((), vm')) : Sound md hm bot vm' (ghostNext md vm recs) := by
+    (hstep : (step md orc).run vm = .ok ((), vm')) : Sound0 md hm bot vm' (ghostNext md vm recs) := by
   have hso' := (step_keeps_stackOk md orc vm vm' hso hstep).1
   have hgn := ghostNext_other (md := md) (vm := vm) (recs := recs) hi (by rw [hop]; decide) (by rw [hop]; decide) (by rw [hop]; decide) (by rw [hop]; decide)
   rw [hgn]
@@ -777,7 +778,7 @@ theorem sound_RET (hf : flowOk md hm = true) (orc : Oracle) (vm vm' : Vm) (recs 
     (hi : md.code[vm.ip]? = some i) (hop : i.op = .RET)
     (hso : StackOk vm) (hfp : vm.fp = topF bot recs) (hd : Desc5 recs) (hwf : WF md hm bot vm recs) (hrun : vm.running = 1)
     (hne : recs ≠ [])
-    (hstep : (step md orc).run vm = .ok ((), vm')) : Sound md hm bot vm' (ghostNext md vm recs) ∧
+    (hstep : (step md orc).run vm = .ok ((), vm')) : Sound0 md hm bot vm' (ghostNext md vm recs) ∧
       ∃ r rs, recs = r :: rs ∧ ghostNext md vm recs = rs ∧ vm'.ip = r.ra ∧ vm'.sp = r.F - 4 ∧ vm'.fp = r.fp ∧ vm'.pp = r.pp ∧ vm'.running = 1 := by
   have hso' := (step_keeps_stackOk md orc vm vm' hso hstep).1
   cases recs with
@@ -815,7 +816,7 @@ theorem sound_RETHROW (hf : flowOk md hm = true) (orc : Oracle) (vm vm' : Vm) (r
     (hi : md.code[vm.ip]? = some i) (hop : i.op = .RETHROW)
     (hso : StackOk vm) (hfp : vm.fp = topF bot recs) (hd : Desc5 recs) (hwf : WF md hm bot vm recs)
     (hne : recs ≠ [])
-    (hstep : (step md orc).run vm = .ok ((), vm')) : Sound md hm bot vm' (ghostNext md vm recs) := by
+    (hstep : (step md orc).run vm = .ok ((), vm')) : Sound0 md hm bot vm' (ghostNext md vm recs) := by
   have hso' := (step_keeps_stackOk md orc vm vm' hso hstep).1
   cases recs with
   | nil => exact absurd rfl hne
@@ -843,10 +844,10 @@ theorem sound_RETHROW (hf : flowOk md hm = true) (orc : Oracle) (vm vm' : Vm) (r
       rw [f2, g3, q3]
       exact wsp.toH (by omega)
 
-/-- **One step of a verified module keeps the global invariant**, under the side conditions `StepOk` -/
-theorem step_sound (hf : flowOk md hm = true) (orc : Oracle) (vm vm' : Vm) (recs : List Rec)
-    (hs : Sound md hm bot vm recs) (hstep : (step md orc).run vm = .ok ((), vm')) (hok : StepOk md hm vm recs) :
-    Sound md hm bot vm' (ghostNext md vm recs) ∨ vm'.running = 3 ∨ vm'.running = 0 := by
+/-- **One step of a verified module keeps the global invariant**, under the side conditions `StepOk0` -/
+theorem step_sound0 (hf : flowOk md hm = true) (orc : Oracle) (vm vm' : Vm) (recs : List Rec)
+    (hs : Sound0 md hm bot vm recs) (hstep : (step md orc).run vm = .ok ((), vm')) (hok : StepOk0 md hm vm recs) :
+    Sound0 md hm bot vm' (ghostNext md vm recs) ∨ vm'.running = 3 ∨ vm'.running = 0 := by
   obtain ⟨hso, hfp, hd, hwf, hcase⟩ := hs
   cases hi : md.code[vm.ip]? with
   | none =>
@@ -904,6 +905,31 @@ theorem step_sound (hf : flowOk md hm = true) (orc : Oracle) (vm vm' : Vm) (recs
 
 end
 
+/-- **the global invariant**: `Sound0` (registers, frame records, heights) and the heap's bookkeeping `FreeInv` -/
+def Sound (md : Module) (hm : HMap) (bot : Int) (vm : Vm) (recs : List Rec) : Prop :=
+  Sound0 md hm bot vm recs ∧ FreeInv vm.gc
+
+/-- the side conditions of one step that the verifier cannot establish: a CALL finds a function value of the arity of its call site
+(`CalleeArity`: type soundness, see Props/C07); and, as a matter of where the considered run starts, a RET / RETHROW finds a live
+record.  (That the allocator hands an `INT` a free cell is no longer a condition: the heap's bookkeeping invariant holds along every
+execution, Props/C09 `vm_heap_bookkeeping_invariant`.) -/
+def StepOk (md : Module) (hm : HMap) (vm : Vm) (recs : List Rec) : Prop :=
+  ∀ i, md.code[vm.ip]? = some i →
+     (i.op = .CALL → CalleeArity md hm vm) ∧
+     ((i.op = .RET ∨ i.op = .RETHROW) → recs ≠ [])
+
+/-- **One step of a verified module keeps the global invariant**, under the side conditions `StepOk` -/
+theorem step_sound {md : Module} {hm : HMap} {bot : Int} (hf : flowOk md hm = true) (orc : Oracle) (vm vm' : Vm) (recs : List Rec)
+    (hs : Sound md hm bot vm recs) (hstep : (step md orc).run vm = .ok ((), vm')) (hok : StepOk md hm vm recs) :
+    Sound md hm bot vm' (ghostNext md vm recs) ∨ vm'.running = 3 ∨ vm'.running = 0 := by
+  obtain ⟨h0, hfree⟩ := hs
+  have hfree' := step_keeps_freeInv md orc vm vm' hfree hstep
+  have hok0 : StepOk0 md hm vm recs := fun i hi => ⟨(hok i hi).1, (hok i hi).2, fun _ => hfree.alloc_fresh⟩
+  rcases step_sound0 hf orc vm vm' recs h0 hstep hok0 with h | h | h
+  · exact Or.inl ⟨h, hfree'⟩
+  · exact Or.inr (Or.inl h)
+  · exact Or.inr (Or.inr h)
+
 /-- `n` steps of M-VM from `(vm, recs)` to `(vm', recs')` — each from a running machine, each with some results of its external
 calls, each satisfying the side conditions `StepOk` —, the list of live records updated by `ghostNext` -/
 inductive RunsG (md : Module) (hm : HMap) : Nat → Vm → List Rec → Vm → List Rec → Prop
@@ -935,8 +961,8 @@ theorem runsG_sound {md : Module} {hm : HMap} {bot : Int} (hf : flowOk md hm = t
 
 /-- the machine `nev_execute` starts on the first time (empty stack, `sp = fp = pp = −1`, control at address 0) satisfies the global
 invariant with no live record -/
-theorem sound_initial {md : Module} {hm : HMap} (hf : flowOk md hm = true) (mem stack gcMode : Nat) :
-    Sound md hm (-1) (beginExecute md (Vm.new mem stack gcMode)) [] := by
+theorem sound0_initial {md : Module} {hm : HMap} (hf : flowOk md hm = true) (mem stack gcMode : Nat) :
+    Sound0 md hm (-1) (beginExecute md (Vm.new mem stack gcMode)) [] := by
   obtain ⟨st, hs, hz, hm0⟩ := flowOk_entry hf
   have e : beginExecute md (Vm.new mem stack gcMode) = { Vm.new mem stack gcMode with ip := 0, initialized := true, running := 1 } := by
     unfold beginExecute; simp [Vm.new]
@@ -950,6 +976,13 @@ theorem sound_initial {md : Module} {hm : HMap} (hf : flowOk md hm = true) (mem 
     exact ⟨[], [], rfl, rfl, rfl⟩
   · exact stackInts_zero _ _
 
+/-- … and the whole invariant, on a heap of at least one cell -/
+theorem sound_initial {md : Module} {hm : HMap} (hf : flowOk md hm = true) (mem stack gcMode : Nat) (hmem : 1 ≤ mem) :
+    Sound md hm (-1) (beginExecute md (Vm.new mem stack gcMode)) [] := by
+  refine ⟨sound0_initial hf mem stack gcMode, ?_⟩
+  have : (beginExecute md (Vm.new mem stack gcMode)).gc = Gc.new mem := by unfold beginExecute Vm.new; simp
+  rw [this]; exact freeInv_new mem hmem
+
 /-! ### the side conditions as a decidable check on concrete runs -/
 
 theorem stepOkB_sound {md : Module} {hm : HMap} {vm vm' : Vm} {recs : List Rec} (h : stepOkB md hm vm vm' recs = true) :
@@ -961,7 +994,7 @@ theorem stepOkB_sound {md : Module} {hm : HMap} {vm vm' : Vm} {recs : List Rec} 
   rw [hi] at h2
   simp only [Bool.and_eq_true, Bool.or_eq_true, bne_iff_ne, ne_eq, Bool.not_eq_true', beq_iff_eq] at h2
   obtain ⟨⟨⟨c1, c2⟩, c3⟩, _⟩ := h2
-  refine ⟨fun hop => ?_, fun hop => ?_, fun hop => ?_⟩
+  refine ⟨fun hop => ?_, fun hop => ?_⟩
   · rcases c1 with c1 | c1
     · exact absurd hop c1
     · intro env fip hc
@@ -974,11 +1007,6 @@ theorem stepOkB_sound {md : Module} {hm : HMap} {vm vm' : Vm} {recs : List Rec} 
       · simp [hop] at c2
       · simp [hop] at c2
     · intro he; rw [he] at c2; simp at c2
-  · rcases c3 with c3 | c3
-    · exact absurd hop c3
-    · unfold allocFreshB at c3
-      simp only [Bool.or_eq_true, beq_iff_eq, Bool.and_eq_true, decide_eq_true_eq, Option.isNone_iff_eq_none] at c3
-      exact c3
 
 /-- run `n` steps, following the live records and checking `stepOkB` at every step; `none` if one fails -/
 def runGB (md : Module) (hm : HMap) (orc : Nat → Oracle) : Nat → Vm → List Rec → Option (Vm × List Rec)
